@@ -413,7 +413,8 @@ def enumerate_edits(env, rng):
                         y = y[1:-1] if y.startswith("{") and y.endswith("}") else y
                         if y == v.lower():
                             unote = "uuid-spelling"     # the same identifier written in another of the RFC 4122 text forms
-                    if re.fullmatch(r"[0-9]{4}-[0-9]{2}-[0-9]{2}T[0-9]{2}:[0-9]{2}:[0-9]{2}", v) and re.fullmatch(re.escape(v) + r"\.0+", x):
+                    if re.fullmatch(r"[0-9]{4}-[0-9]{2}-[0-9]{2}T[0-9]{2}:[0-9]{2}:[0-9]{2}", v) and \
+                            (re.fullmatch(re.escape(v) + r"\.0+", x) or x == v.replace("T", "t")):
                         unote = "datetime-spelling"     # the same instant with a zero fraction of a second
                     yield ("leaf-variant", "set", path, x, unote)
                 if re.fullmatch(r"-?[0-9]+(\.[0-9]+)?", v) and not amountish and not (v.startswith("0") and len(v) > 1 and not v.startswith("0.")):
